@@ -1,15 +1,16 @@
 (* C07 — any string over the semantically robust alphabet is a valid molecule.
-   Proved so far: (a) for every table, the alphabet as a set is exactly the
-   documented one; (b) for every neutral key (all 118 elements, finite sweep) the
-   atom symbols of the alphabet are grammar symbols with that capacity.
-   Charged keys (E+n / E-n, n any canonical positive integer) and the closure
-   "every string over the alphabet decodes without error to a table-obedient
-   molecule" are validated per run by the extracted oracles (decode never raises;
-   valid_smiles_under) and are the next proof stage (they need the decoder
-   invariant of C01/C08). *)
+   Proved for EVERY accepted table (keys as set_semantic_constraints validates them, values >= 0, '?' present,
+   keys short enough for int()) and EVERY finite sequence of alphabet symbols (proofs/AlphaClosure.v):
+   (a) the alphabet as a set is exactly the documented one;
+   (b) every atom symbol of the alphabet - neutral AND charged keys, the latter through the decimal print/parse
+       round trip of proofs/DecFacts.v - is a symbol of the grammar with the capacity of its key;
+   (c) the concatenation tokenises back into the same symbols and the decoder returns (raises nothing);
+   (d) the graph it returns obeys the table at every atom (C01's invariant).
+   Not a theorem: the last step from the graph to the printed SMILES (as for C01; judged per run by the
+   extracted reader: decode never raises; valid_smiles_under). *)
 From Coq Require Import String List ZArith NArith Bool.
 Import ListNotations.
-From Selfies Require Import Base Generated Atoms Config AlphaSpec AlphaFacts.
+From Selfies Require Import Base Generated Lex Atoms Decoder Config AlphaSpec AlphaFacts DecoderInv DecoderSum TokFacts DecFacts DeriveOk AlphaClosure.
 Local Open Scope string_scope.
 
 Theorem C07_alphabet_is_documented_set : forall t y, In y (compute_alphabet t) <-> in_alphabet_spec t y.
@@ -21,5 +22,39 @@ Theorem C07_neutral_symbols_in_grammar_partial : forall (t : table) e c b m,
             a_element a = e /\ a_charge a = 0%Z.
 Proof. exact neutral_alphabet_symbol_in_grammar. Qed.
 
+
+Theorem C07_charged_symbols_in_grammar : forall (T : table) b m e sg c cap,
+  In (b, m) bond_prefix_orders -> In e elements -> (sg = 43 \/ sg = 45)%N -> canonical c -> within_limit (length c) ->
+  assoc (e ++ sg :: c)%list T = Some cap -> (0 <= cap)%Z ->
+  exists a, process_atom_symbol T (lit "[" ++ b ++ e ++ sg :: c ++ lit "]")%list = Ok (Some (m, None, a, cap)).
+Proof. exact charged_symbol_in_grammar. Qed.
+
+(* closure: every string over the alphabet decodes without raising ... *)
+Theorem C07_alphabet_strings_decode : forall T xs attribute,
+  table_ok T -> Forall (fun x => In x (compute_alphabet T)) xs ->
+  exists out, decoder T (concat xs) false attribute = Ok out.
+Proof. intros T xs attribute HT Hxs. exact (alphabet_string_decodes T HT xs Hxs attribute). Qed.
+
+(* ... to a graph in which every atom respects the capacity the table gives it *)
+Theorem C07_alphabet_strings_obey_table_partial : forall T xs attribute m,
+  table_ok T -> Forall (fun x => In x (compute_alphabet T)) xs ->
+  decode_graph T (concat xs) false attribute = Ok m ->
+  forall i a c at_, nth_error (atoms m) i = Some (a, c, at_) ->
+    a_aromatic a = false /\ bonding_capacity T a = Ok c /\ (0 <= valence m i <= c)%Z.
+Proof.
+  intros T xs attribute m HT Hxs E. exact (graph_valence T m (alphabet_string_graph_ok T HT xs Hxs attribute m E)).
+Qed.
+
+(* the hypothesis is met by the presets (regenerated from the source on this run) *)
+Example C07_presets_accepted : forall name T, In (name, T) preset_constraints -> table_ok T.
+Proof.
+  intros name T Hin. apply table_okb_sound.
+  assert (F : forallb (fun p => table_okb (snd p)) preset_constraints = true) by (vm_compute; reflexivity).
+  rewrite forallb_forall in F. exact (F (name, T) Hin).
+Qed.
+
 Print Assumptions C07_alphabet_is_documented_set.
 Print Assumptions C07_neutral_symbols_in_grammar_partial.
+Print Assumptions C07_charged_symbols_in_grammar.
+Print Assumptions C07_alphabet_strings_decode.
+Print Assumptions C07_alphabet_strings_obey_table_partial.
